@@ -24,9 +24,9 @@ def run(ctx):
     with cf.ThreadPoolExecutor(max_workers=2) as ex:
         f_mc = ex.submit(common.model_check, ctx, "OsmDocCases", "OsmDocCases_vals_quick.cfg" if q else "OsmDocCases_vals_thorough.cfg")
         cases = common.gen(ctx, "vals")
-        # the symbol tables depend on the seed: the thorough tier runs every value under six seeds (each of the three
-        # magnitude profiles twice, six string pools)
-        seeds = [ctx.seed] if q else [ctx.seed + k for k in range(6)]
+        # the symbol tables depend on the seed: the thorough tier runs every value under nine seeds (each of the three
+        # magnitude profiles three times, nine string pools)
+        seeds = [ctx.seed] if q else [ctx.seed + k for k in range(9)]
         allc, allr = [], []
         for sd in seeds:
             recs = vlib.run_go(binp, ["-mode", "c04", "-seed", str(sd)], stdin_lines=cases)
